@@ -585,3 +585,60 @@ Example gen_ex :
   exists g1, next 10 h (mk_unify h t1 t2) = Some ([(3, TAtom [97%N]); (1, TAtom [98%N]); (0, TAtom [97%N])] ++ h, g1, true)
     /\ cells g1 = [0;1;3] /\ fst (close ([(3, TAtom [97%N]); (1, TAtom [98%N]); (0, TAtom [97%N])] ++ h) g1) = h.
 Proof. eexists. vm_compute. repeat split. Qed.
+
+(* ------------------------------------------------------------------ *)
+(* fuel: a result, once returned, does not depend on the fuel; a generator that has been
+   advanced once can always be resumed *)
+Lemma open_arr_mono (N N':heap -> gen -> option (heap * gen * bool)) :
+  (forall h g r, N h g = Some r -> N' h g = Some r) ->
+  forall xs ys h r, open_arr N h xs ys = Some r -> open_arr N' h xs ys = Some r.
+Proof.
+  intros HN. induction xs as [|a ar IH]; intros [|b br] h r H; simpl in *; auto.
+  destruct (N h (mk_unify h a b)) as [[[h1 g1] y1]|] eqn:E; [|discriminate].
+  rewrite (HN _ _ _ E). destruct y1; auto.
+  destruct (open_arr N h1 ar br) as [[[h2 gs] ok]|] eqn:E2; [|discriminate].
+  rewrite (IH _ _ _ E2). exact H.
+Qed.
+
+Lemma next_mono_S n : forall h g r, next n h g = Some r -> next (S n) h g = Some r.
+Proof.
+  induction n as [|n IH]; intros h g r H; [discriminate|].
+  remember (S n) as m eqn:Hm. rewrite Hm in H at 1. cbn [next] in H. cbn [next].
+  destruct g as [[|]| |v t| |v|g|xs ys|held|]; auto.
+  - destruct (lookup v h); auto.
+    destruct (next n h (mk_unify h (TVar v) t)) as [[[h1 g1] y1]|] eqn:E; [|discriminate].
+    subst m. rewrite (IH _ _ _ E). exact H.
+  - destruct (next n h g) as [[[h1 g1] y1]|] eqn:E; [|discriminate].
+    subst m. rewrite (IH _ _ _ E). exact H.
+  - destruct (Nat.eqb (length xs) (length ys)); auto.
+    destruct (open_arr (next n) h xs ys) as [[[h1 held] ok]|] eqn:E; [|discriminate].
+    subst m. rewrite (open_arr_mono (next n) (next (S n)) IH _ _ _ E). exact H.
+Qed.
+
+Lemma next_mono n m h g r : next n h g = Some r -> n <= m -> next m h g = Some r.
+Proof. intros H L. induction L; auto. apply next_mono_S; auto. Qed.
+
+Lemma quiet_next_total g : quiet g -> forall h, exists n r, next n h g = Some r.
+Proof.
+  induction 1 as [ | | | |v|g Q IH|held Q]; intros h; try (exists 1; eexists; reflexivity).
+  destruct (IH h) as [n [[[h1 g1] y1] E]]. exists (S n). cbn [next]. rewrite E.
+  destruct y1; eexists; reflexivity.
+Qed.
+
+(* the same link for a unify_arrays generator created directly (Answer.match) *)
+Theorem arrays_gen_matches_unify n h xs ys : wf h ->
+  (forall s', unify_arrays n h xs ys = UOk s' ->
+     exists g1, next (S n) h (GArrFresh xs ys) = Some (s', g1, true)) /\
+  (unify_arrays n h xs ys = UFail -> exists g1, next (S n) h (GArrFresh xs ys) = Some (h, g1, false)).
+Proof.
+  intros W. unfold unify_arrays. cbn [next].
+  destruct (Nat.eqb (length xs) (length ys)) eqn:C.
+  - destruct (open_arr_link (gen_link n) xs ys W) as [A B]. split.
+    + intros s' H. destruct (A _ H) as [held Hh]. rewrite Hh. eauto.
+    + intros H. apply Nat.eqb_eq in C. destruct (B H C) as [hx [held Hh]].
+      assert (N: next (S n) h (GArrFresh xs ys) = Some (close_all hx held, GDone, false)).
+      { cbn [next]. rewrite (proj2 (Nat.eqb_eq _ _) C), Hh. reflexivity. }
+      pose proof (@next_fresh (S n) h (GArrFresh xs ys) _ I N) as [_ Hn]. destruct (Hn eq_refl) as [E _].
+      rewrite Hh, E. eauto.
+  - split; [discriminate|]. intros _. eauto.
+Qed.
